@@ -13,7 +13,7 @@ func init() { register("C02", c02) }
 
 func c02(r *core.Run) {
 	p := r.P
-	r.Explain = "C02 decided structurally (necessary conditions of invariance under cosmetic edits): (NONAME) nothing reachable from the canonicaliser reads a cosmetic attribute — names of parameters, free variables, locals or phis, positions, comments, instruction String() — register and block names come only from counters; the one Value.Name() in the symbolic-expression printer is reachable only with a nil renamer, and every production caller passes a non-nil renamer; (SELF) a function operand's own name is read only after the test 'does it belong to the nest of the function being canonicalised' failed (references into the own nest are positional), so renaming the function itself does not change its IR; (ABST) on the abstraction branch the rendered literal does not depend on the literal's value; (COMM) operands of a commutative operation are written in the order of their rendered strings; (SWAP) operator rewrite and branch exchange are recorded together (shared with C03.GATE.swap); (DECLORDER) results are sorted by function name. Not decided: that the swapped and the original form are behaviourally equal and that sorted operand strings coincide for every commuted pair (semantic / runtime)."
+	r.Explain = "C02 decided structurally (necessary conditions of invariance under cosmetic edits): (NONAME) nothing reachable from the canonicaliser reads a cosmetic attribute — names of parameters, free variables, locals or phis, positions, comments, instruction String() — register and block names come only from counters; the one Value.Name() in the symbolic-expression printer is reachable only with a nil renamer, and every production caller passes a non-nil renamer; (SELF) a function operand's own name is read only after the test 'does it belong to the nest of the function being canonicalised' failed (references into the own nest are positional), so renaming the function itself does not change its IR; (ABST) on the abstraction branch the rendered literal does not depend on the literal's value; (COMM) operands of a commutative operation are written in the order of their rendered strings; (SWAP) operator rewrite and branch exchange are recorded together (shared with C03.GATE.swap); (DECLORDER) results are sorted by function name. Not decided: that the swapped and the original form are behaviourally equal and that sorted operand strings coincide for every commuted pair (semantic / runtime). Also: the commutativity predicate covers + * & | ^ and tests the operand type through Underlying() (defined integer types); the branch swap's operand-type predicate likewise; the same-nest test compares the nest roots of both sides (closure → enclosing function, sibling and deeper closures)."
 	r.Undecided = []string{"behavioural equality of the normalised forms", "that two cosmetically different sources always produce the same go/ssa shape (trusted: go/ssa)"}
 
 	entry := p.Func("pkg/analysis/ir", "(*Canonicalizer).CanonicalizeFunction")
